@@ -1065,7 +1065,16 @@ fn expand(roots: &[f64], lead: f64) -> [f64; 5] {
 fn g_solver(r: &mut Rng) -> Vec<f64> {
     let kind = 2 + r.below(3) as usize;
     let mut c = [0.0f64; 5];
-    match r.below(6) {
+    match r.below(7) {
+        6 => {
+            // repeated roots of very small magnitude (products and discriminants underflow to exact zeros while the
+            // rounded intermediate quantities keep a sign: the clamps in the solvers are what keeps sqrt from NaN; seed C14g)
+            let deg = 2 + r.below((kind - 1) as u64) as usize;
+            let a = r.uniform(1.0, 10.0) * if r.bool() { -1.0 } else { 1.0 } * 10f64.powi(-(r.range_i(20, 95) as i32));
+            let roots: Vec<f64> = (0..deg).map(|_| a).collect();
+            let lead = *r.pick(&[1.0, -1.0, 2.0, 0.5, 3.0, 1e3, 1e-3]);
+            c = expand(&roots, lead);
+        }
         0 => {
             // small integers with exact zeros anywhere (degree-degenerate, all-zero, constant)
             for x in c.iter_mut().take(kind + 1) {
